@@ -214,6 +214,7 @@ func runC13(w *fw.Worker) {
 		pt.CallStmt{C: pt.C("test", pt.A(pt.A(pt.N(1)), pt.A(pt.N(2), pt.N(3))), pt.V("got"))}, pt.CallStmt{C: pt.C("test", pt.S("a"), pt.S("b"), pt.S("msg"))},
 		pt.CallStmt{C: pt.C("test", pt.N(42), pt.N(54), pt.S("answer is %v not %v"), pt.N(42), pt.N(54))}, pt.CallStmt{C: pt.C("test", pt.N(1))}, pt.CallStmt{C: pt.C("test")},
 		pt.CallStmt{C: pt.C("test", pt.N(1), pt.N(2), pt.N(3))}, pt.CallStmt{C: pt.C("test", pt.M("a", pt.N(1)), pt.M("a", pt.N(1)))}, pt.CallStmt{C: pt.C("test", pt.N(1), pt.S("1"))},
+		pt.CallStmt{C: pt.C("test", pt.N(1), pt.N(2), pt.S("25% off %v %s %d"))}, // three arguments: the message is printed as it is, it is not a format string
 		pt.CallStmt{C: pt.C("exit", pt.N(3))}, pt.CallStmt{C: pt.C("exit", pt.N(0))}, pt.CallStmt{C: pt.C("panic", pt.S("boom"))}, pt.Print(pt.S("p")),
 	}
 	gotDecl := []pt.Stmt{pt.TypedDecl{Name: "got", T: pt.ArrOf(pt.TAny)}, pt.Assign{Target: pt.V("got"), X: pt.A(pt.A(pt.N(1)), pt.A(pt.N(2), pt.N(3)))}, pt.Print(pt.V("got"))}
@@ -381,6 +382,21 @@ func checkC13(w *fw.Worker, in c13Input, prog *pt.Prog) *fw.Violation {
 	if in.Kind == "test-exit-panic" {
 		if io.Total != ro.Interp.TestTotal || io.Fails != ro.Interp.TestFails {
 			return viol("test-counts", "test bookkeeping differs", fmt.Sprint(ro.Interp.TestTotal, " total ", ro.Interp.TestFails, " failed"), fmt.Sprint(io.Total, " total ", io.Fails, " failed"))
+		}
+		// each failed test is reported with its message: " (msg)" for a two-value test with a message
+		rest := io.Err
+		for _, m := range ro.Interp.TestMsgs {
+			if io.Class != "test-fail" {
+				break // the run ended with another error, which is the one reported
+			}
+			if m == "" || m == "\x00" {
+				continue
+			}
+			i := strings.Index(rest, " ("+m+")")
+			if i < 0 {
+				return viol("test-message", "a failed test is not reported with its message", "... ("+m+")", io.Err)
+			}
+			rest = rest[i+len(m)+3:]
 		}
 		// the binary's exit status: exit n -> n (mod 256), panic / failed test -> 1, otherwise 0
 		if w == nil || hash(in.Src)%16 == 0 {
